@@ -4,7 +4,25 @@ NOTES = ("All checks are driven by bin/check; the TLA+ specification lives in sp
          "(its go.mod is generated from /repo/go.mod with replace => /repo, so every run rebuilds from /repo's working tree). "
          "Known findings are listed in known_findings.json.")
 NA = {}
+DIST_NOTE = ("Bounds: curated hostile configurations (quick) and every single sub-distributor over <=2 ordered sources, any primary, <=2 shares, burn (thorough); "
+             "deposits of 3/10 units on one account per block, <=3 blocks, shares in quarters (decimal-exact at P=64, so model and 18-digit code agree exactly). "
+             "TLC, the Json module and the harness projection (States/Params queries, bank balances) are trusted.")
 TEXT = {
+    "C03": {
+        "technique": "TLA+ spec Distributor.tla: TLC checks BooksMatch/NonNegative/Conservation on every reachable state of the reference flow; every model transition (deposit, BeginBlocker, export/import) replayed on the real cfedistributor keeper with the C03 predicate and the module's own invariants evaluated on the real state",
+        "level": "Model checking of the documented flow over configuration families x deposit patterns x blocks, plus conformance of the real BeginBlocker to every enumerated transition (balances of every account, every leftover, parameters). The C03 identity is additionally evaluated directly on the real States query after every block, so the verdict never rests on the model alone.",
+        "note": DIST_NOTE,
+    },
+    "C04": {
+        "technique": "TLA+ spec Distributor.tla with an entitlement ghost computed from the documented formula only (ShareExact invariant); per-destination balances and leftovers of the real keeper compared with the model on every transition, including shares to MAIN, internal accounts named like module accounts, multi-source and chained sub-distributors",
+        "level": "The reference model is the independent model of the documented flow the property asks for; TLC proves ShareExact/PaidUp on it within bounds and the harness shows the real keeper produces the same per-destination receipts and leftovers on every enumerated transition.",
+        "note": DIST_NOTE,
+    },
+    "C14": {
+        "technique": "TLA+ spec Distributor.tla with a per-call fault choice in Block(F); TLC checks the C03 identity and ShareExact under every single-fault pattern over 3 blocks; the harness replays every faulty block on the real keeper through a bank-keeper wrapper that fails exactly the chosen calls",
+        "level": "Fault enumeration by the model checker (every single failing sweep/payout/burn per block, followed by fault-free blocks) with conformance of the real keeper's state after each faulty block; PaidUp after a fault-free block shows the missed transfers are made up.",
+        "note": DIST_NOTE + " Faults are injected at the bank-keeper interface of the distributor keeper; natural failures (blocked recipients, locked coins) are not separately enumerated.",
+    },
     "C02": {
         "technique": "TLA+ spec Minter.tla: TLC exhaustive over all configurations x block partitions with an independent cumulative-schedule oracle; every model transition replayed on the real cfeminter BeginBlocker (model-based testing)",
         "level": "TLC checks ScheduleConformance / LinearExact / CarryOK / Monotone on the reference model for every configuration family member and every block partition of the bounded time line; the Go harness then executes every transition of the (decimal-exact) model graph on the real keeper and compares sequence id, amount minted, remainders, history, supply delta and events, so a code change that alters emission at any boundary explored is caught. Model checking + conformance is the right level because the property quantifies over block partitions, which a state-space enumeration covers completely within the bounds.",
